@@ -472,13 +472,93 @@ func c17SeqSub() *engine.Sub {
 	}
 }
 
+type c17RawCarCase struct {
+	Layout string `json:"layout"`
+}
+
+// c17RawCarSub: CAR files assembled byte by byte (the Writer cannot express duplicates or relabelled blocks).
+func c17RawCarSub() *engine.Sub {
+	layouts := []string{"A,B", "A,A", "A,B@cidA", "B@cidA,A", "A,B,B@cidA", "A,B@cidA,B", "A@cidB,B@cidA", "A,B@cidA,C", "A,C,B@cidC", "A,B,A"}
+	return &engine.Sub{
+		Name: "hand-built-car-files",
+		Rule: "CAR streams assembled by the harness from a header and sections (cid || data): duplicates of a block, and blocks stored under the CID of ANOTHER block of the same file at every relative position. A file containing a block whose CID does not hash to its data must be rejected by all four CAR readers; a file with honest duplicates reads as the set of its tokens; never a partial set; non-trivial = all",
+		Bound: func(string) string { return fmt.Sprintf("%d layouts over 3 tokens x 4 CAR readers", len(layouts)) },
+		Gen: func(tier string, emit func(any) bool) {
+			for _, l := range layouts {
+				if !emit(&c17RawCarCase{l}) {
+					return
+				}
+			}
+		},
+		NewCase: func() any { return &c17RawCarCase{} },
+		Run: func(ctx *engine.Ctx, c any) {
+			cs := c.(*c17RawCarCase)
+			toks := map[string]*sealedTok{"A": ioToken("dlg"), "B": ioToken("inv"), "C": ioToken("dlg3")}
+			names := map[string]string{"A": "dlg", "B": "inv", "C": "dlg3"}
+			car := append([]byte{}, buildContainer("car", nil).Data...)
+			uv := func(x int) []byte {
+				b := make([]byte, 10)
+				n := 0
+				for x >= 0x80 {
+					b[n] = byte(x) | 0x80
+					x >>= 7
+					n++
+				}
+				b[n] = byte(x)
+				return b[:n+1]
+			}
+			honest := true
+			var present []string
+			for _, sec := range strings.Split(cs.Layout, ",") {
+				data := toks[sec[:1]].Sealed
+				c := toks[sec[:1]].Cid
+				if i := strings.Index(sec, "@cid"); i > 0 {
+					c = toks[sec[i+4:]].Cid
+					honest = false
+				}
+				present = append(present, names[sec[:1]])
+				body := append(append([]byte{}, c.Bytes()...), data...)
+				car = append(append(car, uv(len(body))...), body...)
+			}
+			ctx.States(1)
+			ctx.Nontrivial(1)
+			for _, format := range []string{"car", "car64"} {
+				data := car
+				if format == "car64" {
+					data = []byte(base64.StdEncoding.EncodeToString(car))
+				}
+				for _, stream := range []bool{false, true} {
+					ctx.Eval(1)
+					ctx.Trans(1)
+					r, err := readContainer(data, format, stream)
+					switch {
+					case err != nil && honest:
+						ctx.Outcome("honest-rejected")
+						ctx.Failf(cs, "honest-car-with-duplicates-rejected", "CAR %s (%s, stream=%v) with honest blocks is rejected: %v", cs.Layout, format, stream, err)
+					case err != nil:
+						ctx.Outcome("rejected")
+					case !honest:
+						ctx.Outcome("mislabelled-accepted")
+						ctx.Failf(cs, "car-block-under-another-blocks-cid-accepted", "CAR %s (%s, stream=%v): a block stored under the CID of another block of the file is not detected; %d entries returned", cs.Layout, format, stream, len(r))
+					default:
+						ctx.Outcome("accepted")
+						if containerView(r) != expectedSetView(present) {
+							ctx.Failf(cs, "honest-car-wrong-set", "CAR %s reads as a different set", cs.Layout)
+						}
+					}
+				}
+			}
+		},
+	}
+}
+
 var _ = base64.StdEncoding
 
 func C17() *engine.Check {
 	return &engine.Check{
 		Property: "C17",
 		Level:    "model_checking",
-		Subs:     []*engine.Sub{c17RoundtripSub(), c17CorruptSub(), c17WrongCidSub(), c17SeqSub()},
+		Subs:     []*engine.Sub{c17RoundtripSub(), c17CorruptSub(), c17WrongCidSub(), c17RawCarSub(), c17SeqSub()},
 		Assumptions: []string{
 			"token pool of 4 sealed tokens (3 signature algorithms); 'every finite set' is covered for sets of up to 4 tokens",
 			"the CBOR container format does not store CIDs, so a wrong CID given to AddSealed is invisible there; only CAR readers can and must detect a CID that does not hash to the data",
